@@ -84,7 +84,7 @@ def do_sample(wd, sampler, kind, p, ow, stage, diag=False):
     import hmclab
     target = hmclab.Distributions.Normal(numpy.array([[0.5], [-0.25]]), numpy.array([[1.0], [2.0]]))
     fname = os.path.join(wd, GIVEN[p])
-    kw = dict(proposals=4, online_thinning=2, overwrite_existing_file=ow, disable_progressbar=True,
+    kw = dict(proposals=4, online_thinning=2, overwrite_existing_file=common.spell_bool(ow), disable_progressbar=True,
               initial_model=numpy.zeros((2, 1)))
     if kind == "hmc":
         kw.update(stepsize=0.2, amount_of_steps=2)
@@ -151,7 +151,7 @@ def run_impl(ops, wd):
             elif op[0] == "openw":
                 _, p, ow = op
                 try:
-                    s = hmclab.Samples(os.path.join(wd, GIVEN[p]), mode="w", overwrite=ow)
+                    s = hmclab.Samples(os.path.join(wd, GIVEN[p]), mode="w", overwrite=common.spell_bool(ow))
                     s.close()
                     del s
                 except FileExistsError:
